@@ -75,10 +75,15 @@ def eval_variant(v: Variant) -> dict:
             new = keys - base
         except AnalysisError as e:
             # the variant removed an anchor: the rule refuses to pass, which counts as firing
+            keys = set()
             new = {'ANALYSIS-ERROR: %s' % e}
         if v.expect == 'fire':
             hit = [k for k in new if v.key is None or v.key in k or k.startswith('ANALYSIS-ERROR')]
-            if not hit:
+            if not hit and v.key is not None and any(v.key in k for k in base & keys):
+                # the tree under analysis already violates at this anchor: the control cannot add anything
+                d['status'] = 'skipped'
+                d['got'] = 'already reported on the unmodified tree'
+            elif not hit:
                 d['status'] = 'wrong'
                 d['got'] = 'stayed silent (new findings: %s)' % sorted(new)[:3]
             else:
